@@ -350,6 +350,10 @@ type RTx struct {
 	// FreeLeaves (with NewSize >= old size + 2, no spill): the appended pages except the last are free-list leaves
 	// that SQLite never writes; the last appended page reaches the file as a zero page when the commit extends it.
 	FreeLeaves bool
+	// SpillNew (with Create): the first transaction is larger than the page cache: SpillNew of its new pages other
+	// than page 1 - which stays pinned for the whole write transaction - are written to the still empty file by a
+	// cache spill before the commit writes page 1 and the rest.
+	SpillNew int
 }
 
 // RTxResult is what the simulator knows after a program ran.
@@ -709,6 +713,28 @@ func (c *Conn) RunRTx(tx RTx, cur *oracle.Image) (res RTxResult) {
 		}
 	}
 
+	if tx.Create && tx.SpillNew > 0 && origSize == 0 {
+		if err := syncJournal(); c.fail(&res, "journal sync (spill)", err) {
+			c.abandon()
+			return
+		}
+		if err := c.lockExclusive(); c.fail(&res, "spill lock", err) {
+			c.abandon()
+			return
+		}
+		for p := uint32(2); p <= newSize && int(p-1) <= tx.SpillNew; p++ {
+			if p == lock || dirty[p] == nil {
+				continue
+			}
+			c.step(fmt.Sprintf("db write page %d", p))
+			if err := c.db.Pwrite(int64(p-1)*int64(c.PageSize), dirty[p]); c.fail(&res, "spill write", err) {
+				c.abandon()
+				return
+			}
+			delete(dirty, p)
+		}
+		wroteDB = true
+	}
 	if tx.Outcome == "rollback" {
 		c.rollbackFromJournal(&res, cur, wroteDB, tx.Final)
 		return
